@@ -211,6 +211,40 @@ Fixpoint p_import (ty : N * N) (b_content : list (htree + cdata)) (l : list (id 
     end
   end.
 
+(* what happens to the sub-element c at position i of parent_a: restricted (a-only), merged with its partner in b
+   (`rec` = merge_element one level down), or nothing *)
+Definition child_step (rec : htree -> list N -> htree -> N -> res (out htree)) (wk : walked) (files : list N)
+           (b_content : list (htree + cdata)) (new_file : N) (i : N) (c : htree) : res (out htree) :=
+  if existsb (N.eqb i) (wk_a_only wk) then Val (OK (h_restrict files c))
+  else match lookup_merge i (wk_merge wk) with
+       | Some ib =>
+         match nth_opt b_content (N.to_nat ib) with
+         | Some (inl eb) =>
+           let files' := if negb (is_empty (h_local c)) then h_local c else files in
+           (let* mo := rec c files' eb new_file in
+            match mo with OK ea' => Val (OK (h_bump new_file ea')) | ER e => Val (ER e) end)%res
+         | _ => Pan "pmerge: merge pair does not denote an element of b"
+         end
+       | None => Val (OK c)
+       end.
+
+Fixpoint map_kids (f : N -> htree -> res (out htree)) (i : N) (l : list (htree + cdata)) {struct l}
+  : res (out (list (htree + cdata))) :=
+  match l with
+  | [] => Val (OK [])
+  | inr d :: r =>
+    (let* ro := map_kids f (i + 1) r in
+     match ro with OK rr => Val (OK (inr d :: rr)) | ER e => Val (ER e) end)%res
+  | inl c :: r =>
+    (let* co := f i c in
+     match co with
+     | ER e => Val (ER e)
+     | OK c' =>
+       let* ro := map_kids f (i + 1) r in
+       match ro with OK rr => Val (OK (inl c' :: rr)) | ER e => Val (ER e) end
+     end)%res
+  end.
+
 (* the heap algorithm restricts the a-only elements, imports the b-only ones and then merges the pairs; the three steps
    touch different sub-elements (and every error is InvalidFileMerge), so the pure version first maps the sub-elements
    of a (restricted / merged with the partner / unchanged) and then inserts the imported ones *)
@@ -230,34 +264,7 @@ Fixpoint pmerge (fuel : nat) (a : htree) (files : list N) (b : htree) (new_file 
      match wko with
      | ER e => Val (ER e)
      | OK wk =>
-       let* c1o :=
-         (fix kids (i : N) (l : list (htree + cdata)) {struct l} : res (out (list (htree + cdata))) :=
-            match l with
-            | [] => Val (OK [])
-            | inr d :: r =>
-              let* ro := kids (i + 1) r in
-              match ro with OK rr => Val (OK (inr d :: rr)) | ER e => Val (ER e) end
-            | inl c :: r =>
-              let* co :=
-                (if existsb (N.eqb i) (wk_a_only wk) then Val (OK (h_restrict files c))
-                 else match lookup_merge i (wk_merge wk) with
-                      | Some ib =>
-                        match nth_opt (h_content b) (N.to_nat ib) with
-                        | Some (inl eb) =>
-                          let files' := if negb (is_empty (h_local c)) then h_local c else files in
-                          let* mo := pmerge fl c files' eb new_file in
-                          match mo with OK ea' => Val (OK (h_bump new_file ea')) | ER e => Val (ER e) end
-                        | _ => Pan "pmerge: merge pair does not denote an element of b"
-                        end
-                      | None => Val (OK c)
-                      end) in
-              match co with
-              | ER e => Val (ER e)
-              | OK c' =>
-                let* ro := kids (i + 1) r in
-                match ro with OK rr => Val (OK (inl c' :: rr)) | ER e => Val (ER e) end
-              end
-            end) 0 (h_content a) in
+       let* c1o := map_kids (child_step (pmerge fl) wk files (h_content b) new_file) 0 (h_content a) in
        match c1o with
        | ER e => Val (ER e)
        | OK c1 =>
